@@ -488,12 +488,16 @@ def rule_pf(ctx):
                     and any(kw.arg == 'freeze' and A.is_const(kw.value, True) for kw in n.value.keywords):
                 frozen.append((n.targets[0].id, n))
         if not frozen:
+            # the frozen copy may be used in place (`for x in self.copy(freeze=True).__iter__(...)`)
+            for n in A.walk_local(fn):
+                if isinstance(n, ast.Call) and isinstance(n.func, ast.Attribute) and n.func.attr == 'copy' \
+                        and any(kw.arg == 'freeze' and A.is_const(kw.value, True) for kw in n.keywords):
+                    frozen.append(('<in place>', n))
+        if not frozen:
             continue
         sites += 1
         fname, fassign = frozen[0]
-        rep.ob('PF', K.key(cls, '__iter__', 'frozen-copy-once'), len(frozen) == 1 and not any(
-            isinstance(a, (ast.For, ast.While)) for a in A.ancestors(fassign) if a is not fn
-            and fn in list(A.ancestors(a))), fassign,
+        rep.ob('PF', K.key(cls, '__iter__', 'frozen-copy-once'), len(frozen) == 1 and not A.in_loop_body(fassign, fn), fassign,
             'one frozen copy per iteration, made outside any loop')
         # every example lookup (subscript / __getitem__ / iteration) in this function and its nested
         # functions must go through the frozen copy, never through self.input_dataset
